@@ -206,7 +206,7 @@ class Engine(Hashable):
         """
         from ._transfer import Transfer
 
-        if simplified := Transfer.simplify(target, self):
+        if target.engine != self and (simplified := Transfer.simplify(target, self)):
             target = simplified
         if target.engine == self:
             if payload is not None:
